@@ -30,7 +30,7 @@ def strategy(tier):
                                max_tr=16, p_orth_root=0.45, p_eventless=0.1, dup_tr=0.25,
                                p_sends=0.1))
         ops = draw(gen.histories(spec, 6, 18, n_events=2, p_all=0.5, p_none=0.05))
-        return {'spec': spec, 'ops': ops}
+        return {'spec': spec, 'ops': ops, 'faults': draw(gen.faults(ops))}
 
     @st.composite
     def leafy(draw):
@@ -50,7 +50,7 @@ def strategy(tier):
             tr['id'] = i
         spec['transitions'] = keep
         ops = draw(gen.histories(spec, 4, 12, n_events=1, p_all=0.7, p_none=0.0))
-        return {'spec': spec, 'ops': ops}
+        return {'spec': spec, 'ops': ops, 'faults': draw(gen.faults(ops))}
     return st.one_of(cases(), cases(), leafy())
 
 
